@@ -1,14 +1,14 @@
 (* VarsBridge.v — the one-line methods regenerated from models.py coincide with the hand model
    (Vars.v) that the C13 / C14 theorems are about. *)
 From Coq Require Import List ZArith Bool Arith Lia.
-From PV Require Import Xnum Select PyLib Argsort Vars Vars_proofs.
+From PV Require Import Xnum Select PyLib Argsort Labels Vars Vars_proofs.
 From PVGen Require Import GenVars.
 Import ListNotations.
 
 Section Bridge.
 Variable C : Type.
 Variable L : Type.
-Variable inverse_transform : list nat -> list L.
+Variable enc_transform : list L -> option (list nat).
 
 Lemma cont_correct_bridge lo hi x :
   correct1 (SCont lo hi) (CNum x) = Some (CNum (gen_cont_correct lo hi x)).
@@ -42,7 +42,7 @@ Proof.
 Qed.
 Lemma perm_correct_bridge v pi : gen_perm_correct v pi = correct_perm_of pi.
 Proof. reflexivity. Qed.
-Lemma perm_decode_bridge v pi :
-  gen_perm_decode L inverse_transform v pi = inverse_transform (correct_perm_of pi).
+Lemma perm_decode_bridge labels v pi :
+  gen_perm_decode L labels v pi = decode_labels L labels (correct_perm_of pi).
 Proof. reflexivity. Qed.
 End Bridge.
